@@ -25,6 +25,7 @@ def b(x):
 
 
 def bl(s):
+    # '1' success, '0' fault, '2' connection dropped during the call: both count as a failed call
     return "[" + ";".join("true" if ch == "1" else "false" for ch in (s or "")) + "]"
 
 
@@ -67,7 +68,7 @@ def run(ctx):
         seen.add(key)
         c = dict(o["case"])
         c.pop("url", None)
-        if ctx.finding(key, what, {"case": c, "observed": {k: o.get(k) for k in ("states", "calls", "late_calls", "leaks", "err", "panic")},
+        if ctx.finding(key, what, {"case": c, "observed": {k: o.get(k) for k in ("states", "calls", "late_calls", "leaks", "works", "err", "panic")},
                                    "how": "work/bin/clientharness c25 -replay <this file>: scripted server injects case.s.err while Connected, then answers Dial/ActivateSession/CreateSession/namespace reads per the 0/1 strings in case.s; states: 0 Closed 1 Connected 2 Connecting 3 Disconnected 4 Reconnecting"}):
             new += 1
 
@@ -87,6 +88,8 @@ def run(ctx):
                 if (a, b2) == (3, 1) and c["s"]["err"] == "subscription":
                     key = "disconnected-to-connected"
                 report(key, "reported transition %s -> %s is not in the documented lifecycle (states %s)" % (STATE[a], STATE[b2], st), o)
+        if st and 1 in st[2:] and o.get("works") == 0:
+            report("connected-but-dead/" + c["s"]["err"], "the client reports Connected after the reconnect but a request sent afterwards is not answered (states %s)" % st, o)
         auto, close = c["p"].get("auto", 0) == 1, c["p"].get("close", 0) == 1
         if close:
             if not st or st[-1] != 0:
@@ -123,7 +126,7 @@ def run(ctx):
     ctx.coverage.update({
         "evaluations": len(obs),
         "distinct_nontrivial": len({json.dumps([o["case"]["s"], o["case"]["p"]], sort_keys=True) for o in usable}),
-        "rule": "fault class rotates over {connection drop x2, BadSecureChannelIDInvalid, BadSessionIDInvalid, BadSubscriptionIDInvalid, BadNoSubscription, BadCertificateInvalid, other}; auto-reconnect on 3/4; Close at the end 1/2; 0..2 scripted outcomes (2/3 success) for each of Dial, ActivateSession, CreateSession, namespace read, the rest succeed; distinct = distinct (fault, outcome lists, options)",
+        "rule": "fault class rotates over {connection drop x2, BadSecureChannelIDInvalid, BadSessionIDInvalid, BadSubscriptionIDInvalid, BadNoSubscription, BadCertificateInvalid, other}; auto-reconnect on 3/4; Close at the end 1/2; 0..2 scripted outcomes (2/3 success) for each of Dial, ActivateSession, CreateSession, namespace read, the rest succeed; one case in four drops the connection during a namespace read of the reconnect; a request is sent after the states settle on Connected and must be answered; distinct = distinct (fault, outcome lists, options)",
         "samples": [{k: o.get(k) for k in ("case", "states", "calls")} for o in usable[:3] + usable[-2:]],
         "state_sequences": dict(collections.Counter(" ".join(str(x) for x in o["states"]) for o in usable).most_common(12)),
         "traces_validated_against_impl": len(lines),
